@@ -1,14 +1,14 @@
-import LolHtml.Lemmas.ChunkStep5
-import LolHtml.Thm.C01
+import LolHtml.Lemmas.ChunkMain
+import LolHtml.Lane.Lex
 /-!
 # C02 — chunk-boundary invariance, and the schedule-independence half of C09
 
-STATUS: **partial**. The full statements are kept below as `def … _statement : Prop`. What is proved
-(for every tokenizer table, every tag configuration, both action sets, every sink) is the machinery of
-the resumption argument up to and including the arm bodies of the DSL and both forms of
-`break_on_end_of_input`; the last assembly steps (`runSeqArms` → `dispatch` → `stateFn` → `runLoop` →
-`Parser.parse` → `TransformStream`) are stated (`C02_step_statement`, `C02_resumption_statement`) but not
-proved. See docs/pkg-chunk.md.
+STATUS: **proved** for every tokenizer table passing the decidable side-condition `WfChunk` (the table
+generated from the Rust sources passes: `C02_wf_gen`), every tag configuration, every settings record and
+every controller of the class `Chunk.TextBlind` (Lemmas/ChunkDisp.lean), under the hypothesis that no run
+involved returns a model panic or the memory error (`Clean`): `C02_chunk_invariance`,
+`C09_schedule_independent`; the intermediate results `C02_step`, `C02_resumption`, `C02_resumption_closed`,
+`C02_dispatcher`, `C02_chunk_vs_single` are of independent use. See docs/pkg-chunk.md.
 
 The comparison is between a *split* run, which sees the input slice `inpS`, and a *whole* run, which
 sees `inpW = pre ++ inpS ++ post` (`Frame inpS inpW δ`, `δ = pre.length`). The machines are related by
@@ -54,29 +54,30 @@ states; a text lexeme may be delivered in two pieces). `SPanic` / the `must`-pan
 hit one of the model's explicit panic branches (a slice out of range, …); those runs are excluded by the
 hypothesis of the top-level statement. -/
 
-variable {κ : Type} {env : Env κ} {inpS inpW : Bytes} {δ : Nat} {K : Nat → κ → κ → Prop}
+variable {κ : Type} {env : Env κ} {inpS inpW : Bytes} {δ : Nat} {K : Nat → κ → κ → Prop} {Loc : κ → Nat → Nat → TextType → Prop}
 
 /-- **Actions.** One action of either machine maps related machines to related machines, with the
 validity flags transformed by `absAct`; the lexemes / hints handed to the sink correspond; the signals
 are equal (bookmark positions shifted by `δ`). A text debt `d` is repaid by `emit_text`. -/
-theorem C02_action_partial (F : Frame inpS inpW δ) (hops : OpsSim env.ops inpS inpW δ K) (a : ActName) {d : Nat}
+theorem C02_action_partial (F : Frame inpS inpW δ) (hops : OpsSim env.ops inpS inpW δ K Loc) (a : ActName) {d : Nat}
     {ab ab' : Ab} (habs : absAct a ab = some ab') {ms mw : M κ} (h : MRel δ d 0 ab .none ms mw)
-    (hK : K d ms.x.sink mw.x.sink) (hd : d = 0 ∨ a = .emitText ∨ a = .emitTextAndEof)
+    (hK : K d ms.x.sink mw.x.sink) (hloc : 0 < d → Loc ms.x.sink ms.x.prevConsumed (lexStart ms.r) ms.c.lastTextType)
+    (hd : d = 0 ∨ a = .emitText ∨ a = .emitTextAndEof)
     (hin : readsInp a = true → (ms.c.nextPos ≤ inpS.length ∨ Closed inpS inpW δ)) :
     ActSim δ K ab' (qRequired a) (act env a inpS ms) (act env a inpW mw) :=
-  act_sim F hops a habs h hK hd hin
+  act_sim F hops a habs h hK hloc hd hin
 
 /-- **Arm bodies** (action list, `if cond`, transition): related results; after a transition the
 machines are related with the entry flags of the target state, otherwise the cursor, state and
 `entered` bit are untouched. -/
-theorem C02_body_partial (F : Frame inpS inpW δ) (hops : OpsSim env.ops inpS inpW δ K) (fs : FlagMap) (st : StateId)
+theorem C02_body_partial (F : Frame inpS inpW δ) (hops : OpsSim env.ops inpS inpW δ K Loc) (fs : FlagMap) (st : StateId)
     (loops : Bool) (b : Body) {d : Nat} {ab : Ab} (hok : bodyOk env.tbl fs st ab loops b = true)
     {ms mw : M κ}
-    (h : MRel δ d 0 ab .none ms mw) (hK : K d ms.x.sink mw.x.sink)
+    (h : MRel δ d 0 ab .none ms mw) (hK : K d ms.x.sink mw.x.sink) (hloc : 0 < d → Loc ms.x.sink ms.x.prevConsumed (lexStart ms.r) ms.c.lastTextType)
     (hd : d = 0 ∨ ∃ s, b = .seq s ∧ StartsWithText s.calls)
     (hin : BodyIn inpS inpW δ ms.c.nextPos b) :
     BodySim δ K fs st loops ms.c (runBody env inpS b ms) (runBody env inpW b mw) :=
-  runBody_sim F hops fs st loops b hok h hK hd hin
+  runBody_sim F hops fs st loops b hok h hK hloc hd hin
 
 /-- **Look-ahead horizon** (`ch_sequence_arm_pattern!`): the verdict is the same in both runs, unless the
 split input ends first, in which case the split run needs more input. -/
@@ -144,21 +145,22 @@ def unitOps : SinkOps Unit :=
   { handleTag := fun _ _ _ => ((), .ok .lex), handleNonTag := fun _ _ _ => ((), .ok ())
     startTagHint := fun _ _ _ => ((), .ok .lex), endTagHint := fun _ _ => ((), .ok .lex) }
 
-example (a b : Bytes) (n : Nat) : OpsSim unitOps a b n (fun d _ _ => d = 0) :=
-  { tag := fun _ _ _ _ _ _ => Or.inr ⟨rfl, rfl⟩
-    nonTag := fun _ _ _ _ _ _ => Or.inr ⟨rfl, rfl⟩
-    text := fun _ _ _ d _ _ _ hd h0 => by omega
-    textOk := fun _ _ _ _ => Or.inr rfl
-    startHint := fun _ _ _ _ _ => ⟨rfl, rfl⟩
-    endHint := fun _ _ _ _ => ⟨rfl, rfl⟩ }
+example (a b : Bytes) (n : Nat) : OpsSim unitOps a b n (fun d _ _ => d = 0) (fun _ _ _ _ => True) :=
+  { tag := fun _ _ _ _ _ _ => Or.inr ⟨rfl, fun _ => rfl⟩
+    nonTag := fun _ _ _ _ _ _ _ => Or.inr ⟨rfl, fun _ => rfl⟩
+    text := fun _ _ _ d _ _ _ hd _ h0 => by omega
+    textOk := fun _ _ _ _ _ _ _ => Or.inr rfl
+    startHint := fun _ _ _ _ _ => Or.inr ⟨rfl, fun _ => rfl⟩
+    endHint := fun _ _ _ _ => Or.inr ⟨rfl, fun _ => rfl⟩ }
 
 example (tbl : Table) (last : Bool) :
     MRel 0 0 0 Ab.none .none ((Parser.new tbl () .lex false).machine last) ((Parser.new tbl () .lex false).machine last) :=
   ⟨⟨rfl, rfl, rfl, rfl, rfl, rfl, rfl, rfl⟩,
-    ⟨Nat.le_refl _, rfl, (fun g => by cases g), rfl, (fun g => by cases g), trivial, trivial, trivial, (fun g => by cases g)⟩,
+    ⟨Nat.le_refl _, rfl, (fun g => by cases g), rfl, (fun g => by cases g), trivial, trivial, trivial, (fun g => by cases g),
+      (fun g => by cases g), (fun g => by cases g)⟩,
     rfl, rfl⟩
 
-/-! ## What remains: the statements to reach -/
+/-! ## The step theorem -/
 
 /-- **C02_step (the "step horizon" theorem).** One state-function invocation from related machines
 (`BRel`): either both runs make the same step (`LockOut`: same signal — on a directive change also related
@@ -167,91 +169,202 @@ machines —, related machines and sinks, equal total consumed at a common break
 has at most run its enter actions (`stateFn mw0 = stateFn mw`). `eoi = true`: a common break of the two runs
 is reported as `LockOut` (possible only if the inputs end together); `eoi = false` (not last): every break of
 the split run is reported as `BreakOut`. -/
-theorem C02_step {κ : Type} {env : Env κ} {inpS inpW : Bytes} {δ : Nat} {K : Nat → κ → κ → Prop}
-    (F : Frame inpS inpW δ) (hops : OpsSim env.ops inpS inpW δ K) {fs : FlagMap}
+theorem C02_step {κ : Type} {env : Env κ} {inpS inpW : Bytes} {δ : Nat} {K : Nat → κ → κ → Prop} {Loc : κ → Nat → Nat → TextType → Prop}
+    (F : Frame inpS inpW δ) (hops : OpsSim env.ops inpS inpW δ K Loc) {fs : FlagMap}
     (hwf : WfChunkWith env.tbl fs = true) {d skip : Nat} (eoi : Bool) {ms mw : M κ}
     (hb : BRel env.tbl fs inpW δ d skip ms mw) (hK : K d ms.x.sink mw.x.sink)
+    (hloc : 0 < d → Loc ms.x.sink ms.x.prevConsumed (lexStart ms.r) ms.c.lastTextType)
     (hil : ms.c.isLast = true → Closed inpS inpW δ) (heoi : eoi = false → ms.c.isLast = false) :
-    LockOut env.tbl fs inpW δ K eoi (stateFn env inpS ms) (stateFn env inpW mw) ∨
-    (∃ (x0 : Ctx κ) (mw0 : M κ),
+    LockOut env.tbl fs inpW δ K Loc eoi (stateFn env inpS ms) (stateFn env inpW mw) ∨
+    ((eoi = true → ¬ Closed inpS inpW δ) ∧ ∃ (x0 : Ctx κ) (mw0 : M κ),
       stateFn env inpW mw0 = stateFn env inpW mw ∧ K d x0.sink mw0.x.sink ∧ mw0.x.sim = x0.sim ∧
       x0.prevConsumed = mw0.x.prevConsumed + δ ∧
-      BreakOut env.tbl fs env.ops inpS inpW δ d x0 mw0 (stateFn env inpS ms)) :=
-  stateFn_sim F hops hwf eoi hb hK hil heoi
+      BreakOut env.tbl fs env.ops Loc inpS inpW δ d x0 mw0 (stateFn env inpS ms)) :=
+  stateFn_sim F hops hwf eoi hb hK hloc hil heoi
 
-/-- outcome of a sequence of calls: the first result that is not `ok` -/
-def outcome : List CallRes → CallRes
-  | [] => .ok
-  | .ok :: rest => outcome rest
-  | r :: _ => r
+/-! ## The parse-level resumption theorems
 
-/-- no call hit a model panic branch (this includes running out of the model's fuel), the memory limit is
-not reached -/
-def Clean (rs : List CallRes) : Prop := ∀ r ∈ rs, (∀ s, r ≠ .err (.panic s)) ∧ r ≠ .err .mem
+`PRunsM env inp last p m p' r`: the big-step (fuel-free) semantics of `Parser::parse` from parser `p` whose
+active machine is `m`; `pruns_of_parseLoop`: the executable `Parser.parseLoop` computes it unless it runs out
+of the model's fuel. -/
 
-/-- absolute form of a token: attribute outlines re-based by the slice offset -/
-def normToken : Token → Token
-  | .startTag n as ns sc raw src base => .startTag n (as.map fun a => (a.1, a.2.1, shA base a.2.2)) ns sc raw src 0
-  | t => t
+/-- **C02_resumption, inputs ending together.** Parsing the split input `inpS` and the whole input
+`pre ++ inpS` from related parsers: the split parse hits a panic branch, or the whole parse has a result and
+the results are related (`ResRel`: the same error, or consumed counts that differ by the frame minus the text
+debt `d'` — here always `0` —, related sinks and, when not last, parsers related in the frame of what is kept). -/
+theorem C02_resumption_closed {κ : Type} {env : Env κ} {inpS inpW : Bytes} {δ : Nat} {K : Nat → κ → κ → Prop}
+    {Loc : κ → Nat → Nat → TextType → Prop} (F : Frame inpS inpW δ) (hcl : Closed inpS inpW δ)
+    (hops : OpsSim env.ops inpS inpW δ K Loc) {fs : FlagMap} (hwf : WfChunkWith env.tbl fs = true) (last : Bool)
+    {ps ps' : Parser κ} {ms : M κ} {rs : Except Err Nat} (hr : PRunsM env inpS last ps ms ps' rs) {d skip : Nat}
+    {pw : Parser κ} {mw : M κ} (hp : PRelM env.tbl fs inpW δ d skip ps ms pw mw) (hl : ms.c.isLast = last)
+    (hK : K d ms.x.sink mw.x.sink)
+    (hloc : 0 < d → Loc ms.x.sink ms.x.prevConsumed (lexStart ms.r) ms.c.lastTextType) :
+    PanicRes rs ∨ ∃ pw' rw, PRunsM env inpW last pw mw pw' rw ∧ ResRel env.tbl fs inpW δ K Loc last ps' pw' rs rw :=
+  plock F hcl hops hwf last hr hp hl hK hloc
 
-/-- what a controller may read of an `AuxStartTagInfo`: the attribute names and values, self-closing -/
-def normAux (i : AuxInfo) : List (Option Bytes × Option Bytes) × Bool :=
-  (i.attrs.map fun a => (checkedSlice i.input a.name, checkedSlice i.input a.value), i.selfClosing)
+/-- **C02_resumption, one cut.** Parsing the split input `inpS` (not the last one) against the whole input
+`pre ++ inpS ++ post`: a panic branch; or the same error in both runs; or the split parse returns `ok c` and
+the whole parse, *inside* its `run_parsing_loop`, has reached a machine `mw1` (every result of the whole parse
+from `mw1` is a result of the whole parse from `mw`) to which the split parser — as it will be resumed by the
+next `parse` — is related in the frame `δ + c`; `SinkBrk`: what the split sink received in the breaking step. -/
+theorem C02_resumption {κ : Type} {env : Env κ} {inpS inpW : Bytes} {δ : Nat} {K : Nat → κ → κ → Prop}
+    {Loc : κ → Nat → Nat → TextType → Prop} (F : Frame inpS inpW δ)
+    (hops : OpsSim env.ops inpS inpW δ K Loc) {fs : FlagMap} (hwf : WfChunkWith env.tbl fs = true)
+    {ps ps' : Parser κ} {ms : M κ} {rs : Except Err Nat} (hr : PRunsM env inpS false ps ms ps' rs) {d skip : Nat}
+    {pw : Parser κ} {mw : M κ} (hp : PRelM env.tbl fs inpW δ d skip ps ms pw mw) (hl : ms.c.isLast = false)
+    (hK : K d ms.x.sink mw.x.sink)
+    (hloc : 0 < d → Loc ms.x.sink ms.x.prevConsumed (lexStart ms.r) ms.c.lastTextType) :
+    PanicRes rs ∨
+    (∃ e pw', rs = .error e ∧ PRunsM env inpW false pw mw pw' (.error e)) ∨
+    (∃ c, rs = .ok c ∧ ∃ (d1 d' skip' : Nat) (x0 : Ctx κ) (pwk : Parser κ) (mw1 : M κ),
+      (∀ p' r, PRunsM env inpW false pwk mw1 p' r → PRunsM env inpW false pw mw p' r) ∧
+      K d1 x0.sink mw1.x.sink ∧
+      SinkBrk env.ops Loc inpS d1 d' x0 ps'.x.sink c (ps'.machine false).c.lastTextType ∧
+      lexStart (ps'.machine false).r = 0 ∧ ps'.x.prevConsumed = x0.prevConsumed + c ∧
+      PRelM env.tbl fs inpW (δ + c) d' skip' ps' (ps'.machine false) pwk mw1) :=
+  popen F hops hwf hr hp hl hK hloc
 
-/-- **The class of controllers**: behaviour depends on tokens and aux-info only through their absolute
-forms, and there is a relation `E` on controller states ("equal up to the fragmentation of the open text
-node") that every operation respects and under which delivering a text chunk in two pieces is the same as
-delivering it in one; text chunks never fail and are serialised to their own bytes. -/
-structure TextBlind {γ : Type} (ctl : Controller γ) (E : γ → γ → Prop) : Prop where
-  refl : ∀ g, E g g
-  token_norm : ∀ g t t', normToken t = normToken t' → ctl.token g t = ctl.token g t'
-  aux_norm : ∀ g i i', normAux i = normAux i' → ctl.auxInfo g i = ctl.auxInfo g i'
-  start : ∀ g g' n ns, E g g' → (ctl.startTag g n ns).2 = (ctl.startTag g' n ns).2 ∧ E (ctl.startTag g n ns).1 (ctl.startTag g' n ns).1
-  «end» : ∀ g g' n, E g g' → (ctl.endTag g n).2 = (ctl.endTag g' n).2 ∧ E (ctl.endTag g n).1 (ctl.endTag g' n).1
-  aux : ∀ g g' i, E g g' → (ctl.auxInfo g i).2 = (ctl.auxInfo g' i).2 ∧ E (ctl.auxInfo g i).1 (ctl.auxInfo g' i).1
-  emit : ∀ g g', E g g' → ctl.shouldEmit g = ctl.shouldEmit g'
-  flags : ∀ g g', E g g' → ctl.initialFlags g = ctl.initialFlags g'
-  tok : ∀ g g' t, E g g' → (∀ b tt l s, t ≠ .text b tt l s) →
-    (ctl.token g t).2.chunks = (ctl.token g' t).2.chunks ∧ (ctl.token g t).2.err = (ctl.token g' t).2.err ∧
-    (ctl.token g t).2.nextEncoding = (ctl.token g' t).2.nextEncoding ∧ E (ctl.token g t).1 (ctl.token g' t).1
-  text_ok : ∀ g b tt l s, (ctl.token g (.text b tt l s)).2.err = none ∧
-    (ctl.token g (.text b tt l s)).2.nextEncoding = none ∧ (ctl.token g (.text b tt l s)).2.chunks.flatten = b
-  text_split : ∀ g g' b1 b2 tt l s, E g g' →
-    E (ctl.token (ctl.token g (.text b1 tt false ⟨s, s + b1.length⟩)).1 (.text b2 tt l ⟨s + b1.length, s + b1.length + b2.length⟩)).1
-      (ctl.token g' (.text (b1 ++ b2) tt l ⟨s, s + b1.length + b2.length⟩)).1
-  text_last : ∀ g g' tt s, E g g' →
-    E (ctl.token g (.text [] tt true ⟨s, s⟩)).1 (ctl.token g' (.text [] tt true ⟨s, s⟩)).1
-  handleEnd : ∀ g g', E g g' → (ctl.handleEnd g).2 = (ctl.handleEnd g').2 ∧ E (ctl.handleEnd g).1 (ctl.handleEnd g').1
+/-- **The dispatcher is a sink for the resumption theorems**, for every controller of the class `TextBlind`. -/
+theorem C02_dispatcher {γ : Type} {ctl : Controller γ} {E : γ → γ → Prop} {inpS inpW : Bytes} {δ : Nat}
+    (F : Frame inpS inpW δ) (hcl : TextBlind ctl E) : OpsSim (dispOps ctl) inpS inpW δ (DK ctl E inpS inpW δ) DLoc :=
+  dispOps_sim F hcl
 
-/-- Controllers that ignore text tokens entirely, with `E := (· = ·)`, are in the class; so is the logging
-observer of lane `lex` (`Lane.Lex.ctl`) with `E` := "equal after flushing `textAcc` into the state", whose
-log is the canonical merged form of the event sequence. (Instances to be proved with the theorem.) -/
-def IgnoresText {γ : Type} (ctl : Controller γ) : Prop :=
-  ∀ g b tt l s, ctl.token g (.text b tt l s) = (g, { chunks := if b.isEmpty then [] else [b] })
+/-! ## C02 and C09
 
-/-- **C02 (full statement).** Two chunkings of the same document, a table passing `WfChunk`, any tag
-configuration, any settings, a controller in the class: if neither run hits a panic branch of the model or
-the memory limit, both runs have the same outcome, the sink receives the same bytes, and the final
-controller states are `E`-related (for a logging controller: the same canonical event sequence, with
-absolute source ranges). -/
-def C02_chunk_invariance_statement : Prop :=
-  ∀ (γ : Type) (w : World γ) (E : γ → γ → Prop) (g : γ) (cfg : Settings) (cs₁ cs₂ : List Bytes),
-    WfChunk w.tbl = true → TextBlind w.ctl E → cs₁.flatten = cs₂.flatten →
-    let r₁ := C01.run w (C01.Rewriter.new w g cfg) cs₁
-    let r₂ := C01.run w (C01.Rewriter.new w g cfg) cs₂
-    Clean r₁.2 → Clean r₂.2 →
-    outcome r₁.2 = outcome r₂.2 ∧
-    (outcome r₁.2 = .ok → sinkBytes r₁.1.sink = sinkBytes r₂.1.sink ∧ E r₁.1.stream.disp.ctl r₂.1.stream.disp.ctl)
+`outcome rs`: the first result of a call sequence that is not `ok`. `Clean rs`: no call returned a model
+panic (`Err.panic`: a Rust debug assertion / slice out of range, or the model's own fuel) or `Err.mem`.
 
-/-- **C09, schedule independence (full statement).** After any sequence of successful writes, the number
-of bytes the sink has received is what a fresh rewriter given the same bytes in one write has emitted. -/
-def C09_schedule_independent_statement : Prop :=
-  ∀ (γ : Type) (w : World γ) (E : γ → γ → Prop) (g : γ) (cfg : Settings) (cs : List Bytes),
-    WfChunk w.tbl = true → TextBlind w.ctl E →
-    let r₁ := C01.writeAll w (C01.Rewriter.new w g cfg) cs
-    let r₂ := (C01.Rewriter.new w g cfg).write w cs.flatten
-    Clean r₁.2 → Clean [r₂.2] → (∀ r ∈ r₁.2, r = .ok) →
-    r₂.2 = .ok ∧ (sinkBytes r₁.1.sink).length = (sinkBytes r₂.1.sink).length
+The class of controllers is `Chunk.TextBlind ctl E` (Lemmas/ChunkDisp.lean): `E` — "equal up to the
+fragmentation of the open text node" — is transitive, holds on its domain `E g g` (the theorems take `E g g`
+for the initial state) and is respected by every controller operation; tokens are observed through their
+absolute form (`normToken`), attribute buffers through their in-range slices; content is never removed
+(`shouldEmit = true`); on the domain text chunks never fail, never switch the encoding, are serialised to
+their own bytes, and delivering a text chunk in two pieces is `E`-equivalent to delivering it in one. -/
+
+/-- **C02, any chunking against one write.** -/
+theorem C02_chunk_vs_single {γ : Type} (w : World γ) (E : γ → γ → Prop) (g : γ) (cfg : Settings) (cs : List Bytes)
+    (hwf : WfChunk w.tbl = true) (hcl : TextBlind w.ctl E) (hg : E g g) (hne : cs ≠ [])
+    (hc : Clean (C01.run w (C01.Rewriter.new w g cfg) cs).2)
+    (hcW : Clean (C01.run w (C01.Rewriter.new w g cfg) [cs.flatten]).2) :
+    outcome (C01.run w (C01.Rewriter.new w g cfg) cs).2 = outcome (C01.run w (C01.Rewriter.new w g cfg) [cs.flatten]).2 ∧
+    (outcome (C01.run w (C01.Rewriter.new w g cfg) cs).2 = .ok →
+      sinkBytes (C01.run w (C01.Rewriter.new w g cfg) cs).1.sink =
+        sinkBytes (C01.run w (C01.Rewriter.new w g cfg) [cs.flatten]).1.sink ∧
+      E (C01.run w (C01.Rewriter.new w g cfg) cs).1.stream.disp.ctl
+        (C01.run w (C01.Rewriter.new w g cfg) [cs.flatten]).1.stream.disp.ctl) := by
+  rcases chunking_vs_single (fs := flagMap w.tbl) hcl hwf g hg cfg cs hne with h | h | h
+  · exact absurd hc (not_clean_of_uncleanL h)
+  · exact absurd hcW (not_clean_of_uncleanL h)
+  · exact h
+
+/-- **C02 (chunk-boundary invariance).** Two chunkings of the same document: the same outcome, and on
+success the same bytes at the sink and controller states both `E`-related to that of the single-write run
+(for `E := Eq`: the same final controller state). -/
+theorem C02_chunk_invariance {γ : Type} (w : World γ) (E : γ → γ → Prop) (g : γ) (cfg : Settings) (cs₁ cs₂ : List Bytes)
+    (hwf : WfChunk w.tbl = true) (hcl : TextBlind w.ctl E) (hg : E g g) (h1 : cs₁ ≠ []) (h2 : cs₂ ≠ [])
+    (hflat : cs₁.flatten = cs₂.flatten)
+    (hc1 : Clean (C01.run w (C01.Rewriter.new w g cfg) cs₁).2)
+    (hc2 : Clean (C01.run w (C01.Rewriter.new w g cfg) cs₂).2)
+    (hcW : Clean (C01.run w (C01.Rewriter.new w g cfg) [cs₁.flatten]).2) :
+    outcome (C01.run w (C01.Rewriter.new w g cfg) cs₁).2 = outcome (C01.run w (C01.Rewriter.new w g cfg) cs₂).2 ∧
+    (outcome (C01.run w (C01.Rewriter.new w g cfg) cs₁).2 = .ok →
+      sinkBytes (C01.run w (C01.Rewriter.new w g cfg) cs₁).1.sink =
+        sinkBytes (C01.run w (C01.Rewriter.new w g cfg) cs₂).1.sink ∧
+      ∃ gW, E (C01.run w (C01.Rewriter.new w g cfg) cs₁).1.stream.disp.ctl gW ∧
+        E (C01.run w (C01.Rewriter.new w g cfg) cs₂).1.stream.disp.ctl gW) := by
+  obtain ⟨a1, a2⟩ := C02_chunk_vs_single w E g cfg cs₁ hwf hcl hg h1 hc1 hcW
+  obtain ⟨b1, b2⟩ := C02_chunk_vs_single w E g cfg cs₂ hwf hcl hg h2 hc2 (by rw [← hflat]; exact hcW)
+  rw [← hflat] at b1 b2
+  refine ⟨by rw [a1, b1], fun hok => ?_⟩
+  obtain ⟨a3, a4⟩ := a2 hok
+  obtain ⟨b3, b4⟩ := b2 (by rw [b1, ← a1]; exact hok)
+  exact ⟨by rw [a3, b3], _, a4, b4⟩
+
+/-- **C09 (schedule independence).** After any sequence of successful writes the sink has received exactly
+the bytes that a fresh rewriter given the same bytes in ONE write has emitted (and that write succeeds). -/
+theorem C09_schedule_independent {γ : Type} (w : World γ) (E : γ → γ → Prop) (g : γ) (cfg : Settings) (cs : List Bytes)
+    (hwf : WfChunk w.tbl = true) (hcl : TextBlind w.ctl E) (hg : E g g) (hne : cs ≠ [])
+    (hall : ∀ r ∈ (C01.writeAll w (C01.Rewriter.new w g cfg) cs).2, r = .ok)
+    (hcW : Clean [((C01.Rewriter.new w g cfg).write w cs.flatten).2]) :
+    ((C01.Rewriter.new w g cfg).write w cs.flatten).2 = .ok ∧
+    sinkBytes (C01.writeAll w (C01.Rewriter.new w g cfg) cs).1.sink =
+      sinkBytes ((C01.Rewriter.new w g cfg).write w cs.flatten).1.sink := by
+  rcases writes_vs_single (fs := flagMap w.tbl) hcl hwf g hg cfg cs hne hall with h | ⟨h1, h2, _⟩
+  · exfalso
+    obtain ⟨r1, _, _⟩ := write_res (w := w) (C01.Rewriter.new w g cfg) rfl cs.flatten
+    have hcl' := hcW _ List.mem_cons_self
+    rw [r1] at hcl'
+    rcases h with ⟨m, hm⟩ | hm
+    · exact hcl'.1 m (by
+        show callRes ((Stream.new w g cfg).write w cs.flatten).2 = _
+        rw [hm]; rfl)
+    · exact hcl'.2 (by
+        show callRes ((Stream.new w g cfg).write w cs.flatten).2 = _
+        rw [hm]; rfl)
+  · exact ⟨h1, h2⟩
+
+/-! ## Controllers of the class -/
+
+/-- a controller that observes tokens only through their absolute form, never removes content, and ignores
+text chunks (passes them through) is in the class, with `E := Eq` -/
+theorem textBlind_of_ignoresText {γ : Type} (ctl : Controller γ)
+    (token_norm : ∀ g t t', normToken t = normToken t' → ctl.token g t = ctl.token g t')
+    (aux_norm : ∀ g i i', AuxRefines i i' → EPanic (ctl.auxInfo g i).2 ∨ ctl.auxInfo g i = ctl.auxInfo g i')
+    (emit : ∀ g, ctl.shouldEmit g = true)
+    (text : ∀ g b tt l s, (ctl.token g (.text b tt l s)).1 = g ∧ (ctl.token g (.text b tt l s)).2.err = none ∧
+      (ctl.token g (.text b tt l s)).2.nextEncoding = none ∧ (ctl.token g (.text b tt l s)).2.chunks.flatten = b) :
+    TextBlind ctl Eq where
+  dom := fun _ _ _ => ⟨rfl, rfl⟩
+  dom_tok := fun _ _ _ => rfl
+  trans := fun _ _ _ h1 h2 => h1.trans h2
+  token_norm := token_norm
+  aux_norm := aux_norm
+  start := fun g g' n ns h => by subst h; exact ⟨rfl, rfl⟩
+  endT := fun g g' n h => by subst h; exact ⟨rfl, rfl⟩
+  aux := fun g g' i h => by subst h; exact ⟨rfl, rfl⟩
+  emit := emit
+  flags := fun g g' h => by subst h; rfl
+  tok := fun g g' t h _ => by subst h; exact ⟨rfl, rfl, rfl, rfl⟩
+  text_ok := fun g b tt l s _ => (text g b tt l s).2
+  text_cong := fun g g' b tt l s h => by subst h; rfl
+  text_split := fun g b1 b2 tt l s _ => by rw [(text _ _ _ _ _).1, (text _ _ _ _ _).1, (text _ _ _ _ _).1]
+  handleEnd := fun g g' h => by subst h; exact ⟨rfl, rfl⟩
+
+/-- the constant-flags observers of C01 (pure tag scanning for flags `0`, full lexing for flags `31`, and
+everything in between) are in the class -/
+theorem constCtl_textBlind (f : Nat) : TextBlind (C01.constCtl f) Eq :=
+  textBlind_of_ignoresText _
+    (fun g t t' h => by
+      have hr : ∀ t : Token, (normToken t).raw = t.raw := fun t => by cases t <;> rfl
+      have : t.raw = t'.raw := by rw [← hr t, ← hr t', h]
+      simp [C01.constCtl, this])
+    (fun _ _ _ _ => Or.inr rfl)
+    (fun _ => rfl)
+    (fun _ b _ _ _ => ⟨rfl, rfl, rfl, by simp [C01.constCtl, Token.raw]⟩)
+
+/-- **C02 for the code's current tables**, constant capture flags `f` (the *partial* theorem of the brief: pure
+scanner run `f = 0`, pure lexer run `f = 31`; arbitrary input and chunking). -/
+theorem C02_chunk_invariance_partial (f : Nat) (cfg : Settings) (cs₁ cs₂ : List Bytes) (h1 : cs₁ ≠ []) (h2 : cs₂ ≠ [])
+    (hflat : cs₁.flatten = cs₂.flatten)
+    (hc1 : Clean (C01.run (C01.genWorld f) (C01.Rewriter.new (C01.genWorld f) () cfg) cs₁).2)
+    (hc2 : Clean (C01.run (C01.genWorld f) (C01.Rewriter.new (C01.genWorld f) () cfg) cs₂).2)
+    (hcW : Clean (C01.run (C01.genWorld f) (C01.Rewriter.new (C01.genWorld f) () cfg) [cs₁.flatten]).2) :
+    outcome (C01.run (C01.genWorld f) (C01.Rewriter.new (C01.genWorld f) () cfg) cs₁).2 =
+      outcome (C01.run (C01.genWorld f) (C01.Rewriter.new (C01.genWorld f) () cfg) cs₂).2 ∧
+    (outcome (C01.run (C01.genWorld f) (C01.Rewriter.new (C01.genWorld f) () cfg) cs₁).2 = .ok →
+      sinkBytes (C01.run (C01.genWorld f) (C01.Rewriter.new (C01.genWorld f) () cfg) cs₁).1.sink =
+        sinkBytes (C01.run (C01.genWorld f) (C01.Rewriter.new (C01.genWorld f) () cfg) cs₂).1.sink) := by
+  obtain ⟨a, b⟩ := C02_chunk_invariance (C01.genWorld f) Eq () cfg cs₁ cs₂ C02_wf_gen (constCtl_textBlind f) rfl h1 h2 hflat hc1 hc2 hcW
+  exact ⟨a, fun h => (b h).1⟩
+
+/-- **C09 for the code's current tables**, constant capture flags. -/
+theorem C09_schedule_independent_partial (f : Nat) (cfg : Settings) (cs : List Bytes) (hne : cs ≠ [])
+    (hall : ∀ r ∈ (C01.writeAll (C01.genWorld f) (C01.Rewriter.new (C01.genWorld f) () cfg) cs).2, r = .ok)
+    (hcW : Clean [((C01.Rewriter.new (C01.genWorld f) () cfg).write (C01.genWorld f) cs.flatten).2]) :
+    ((C01.Rewriter.new (C01.genWorld f) () cfg).write (C01.genWorld f) cs.flatten).2 = .ok ∧
+    sinkBytes (C01.writeAll (C01.genWorld f) (C01.Rewriter.new (C01.genWorld f) () cfg) cs).1.sink =
+      sinkBytes ((C01.Rewriter.new (C01.genWorld f) () cfg).write (C01.genWorld f) cs.flatten).1.sink :=
+  C09_schedule_independent (C01.genWorld f) Eq () cfg cs C02_wf_gen (constCtl_textBlind f) rfl hne hall hcW
 
 /-! ## Instances of the full statements on the generated table (evidence, by evaluation)
 
@@ -282,5 +395,252 @@ example :
     (sinkBytes (C01.writeAll (C01.genWorld 0) (C01.Rewriter.new (C01.genWorld 0) () {}) [[60], [], [100, 105]]).1.sink).length
     = (sinkBytes ((C01.Rewriter.new (C01.genWorld 0) () {}).write (C01.genWorld 0) [60, 100, 105]).1.sink).length := by
   decide +kernel
+
+/-! ## Non-vacuity of the hypotheses of the final theorems -/
+
+theorem clean_of_all_ok {rs : List CallRes} (h : ∀ r ∈ rs, r = .ok) : Clean rs := by
+  intro r hr
+  rw [h r hr]
+  exact ⟨(fun s hh => by cases hh), (fun hh => by cases hh)⟩
+
+/-- the three runs of `C02_chunk_invariance` on the sample document are clean (all calls succeed) -/
+example : Clean (C01.run (C01.genWorld 31) (C01.Rewriter.new (C01.genWorld 31) () {}) chunking2).2 ∧
+    Clean (C01.run (C01.genWorld 31) (C01.Rewriter.new (C01.genWorld 31) () {}) chunking3).2 ∧
+    Clean (C01.run (C01.genWorld 31) (C01.Rewriter.new (C01.genWorld 31) () {}) [chunking2.flatten]).2 := by
+  refine ⟨clean_of_all_ok ?_, clean_of_all_ok ?_, clean_of_all_ok ?_⟩ <;> decide +kernel
+
+/-- hence, as an instance of the theorem (not by evaluation): the two chunkings give the same sink bytes -/
+example : sinkBytes (C01.run (C01.genWorld 31) (C01.Rewriter.new (C01.genWorld 31) () {}) chunking2).1.sink
+    = sinkBytes (C01.run (C01.genWorld 31) (C01.Rewriter.new (C01.genWorld 31) () {}) chunking3).1.sink := by
+  have h := C02_chunk_invariance_partial 31 {} chunking2 chunking3 (by decide) (by decide) (by decide)
+    (clean_of_all_ok (by decide +kernel)) (clean_of_all_ok (by decide +kernel)) (clean_of_all_ok (by decide +kernel))
+  exact h.2 (by decide +kernel)
+
+/-- the class is inhabited by controllers that do observe text: splitting a text chunk is visible in the
+state only up to `E` (here: a counter of text *bytes*, not of text chunks) -/
+def byteCounter : Controller Nat :=
+  { initialFlags := fun _ => Flags.ofNat 31
+    startTag := fun n _ _ => (n, .flags (Flags.ofNat 31))
+    auxInfo := fun n _ => (n, .ok (Flags.ofNat 31))
+    endTag := fun n _ => (n, Flags.ofNat 31)
+    token := fun n t => match t with
+      | .text b _ _ _ => (n + b.length, { chunks := [b] })
+      | t => (n, { chunks := [t.raw] })
+    shouldEmit := fun _ => true
+    handleEnd := fun n => (n, [], none)
+    bailOut := fun n _ => (n, []) }
+
+theorem byteCounter_textBlind : TextBlind byteCounter Eq where
+  dom := fun _ _ _ => ⟨rfl, rfl⟩
+  dom_tok := fun _ _ _ => rfl
+  trans := fun _ _ _ h1 h2 => h1.trans h2
+  token_norm := fun g t t' h => by
+    cases t <;> cases t' <;> simp only [normToken] at h <;> first | cases h | skip
+    all_goals first | (injection h with h1 h2 h3 h4 h5 h6 h7; subst_vars; rfl) | rfl
+  aux_norm := fun _ _ _ _ => Or.inr rfl
+  start := fun g g' n ns h => by subst h; exact ⟨rfl, rfl⟩
+  endT := fun g g' n h => by subst h; exact ⟨rfl, rfl⟩
+  aux := fun g g' i h => by subst h; exact ⟨rfl, rfl⟩
+  emit := fun _ => rfl
+  flags := fun g g' h => by subst h; rfl
+  tok := fun g g' t h _ => by subst h; exact ⟨rfl, rfl, rfl, rfl⟩
+  text_ok := fun g b tt l s _ => ⟨rfl, rfl, by simp [byteCounter]⟩
+  text_cong := fun g g' b tt l s h => by subst h; rfl
+  text_split := fun g b1 b2 tt l s _ => by
+    show g + b1.length + b2.length = g + (b1 ++ b2).length
+    rw [List.length_append]; omega
+  handleEnd := fun g g' h => by subst h; exact ⟨rfl, rfl⟩
+
+/-! ## The logging observer of lane `lex`
+
+`Lane.Lex.ctl` logs every event with absolute source ranges and merges the chunks of a text node into one
+`X:` entry, so its log is already the canonical ("up to text-token merging") form of the controller-call
+sequence. `LexE`: equal logs and scripts, failure injection off. -/
+
+section lex
+open LolHtml.Lane.Lex
+/-- the logging observer's state without its count of `handle_token` calls -/
+def eraseSeen (c : Ctl) : Ctl := { c with tokensSeen := 0 }
+
+/-- "equal up to the fragmentation of the open text node" for the logging observer of lane `lex`: failure
+injection off, everything equal except the number of `handle_token` calls -/
+def LexE (c c' : Ctl) : Prop := c.failAt = 0 ∧ eraseSeen c = eraseSeen c'
+
+theorem attrStr_norm (base : Nat) (a : Bytes × Bytes × AttrOutline) :
+    attrStr 0 (a.1, a.2.1, shA base a.2.2) = attrStr base a := by
+  obtain ⟨n, v, o⟩ := a
+  have e1 : 0 + (o.name.start + base) = base + o.name.start := by omega
+  have e2 : 0 + (o.value.start + base) = base + o.value.start := by omega
+  simp only [attrStr, shA, shR, e1, e2]
+
+theorem tokenStr_norm (t : Token) : tokenStr (normToken t) = tokenStr t := by
+  cases t with
+  | startTag n as ns sc raw src base =>
+    simp only [normToken, tokenStr, List.isEmpty_map, List.map_map]
+    congr
+    funext a
+    exact attrStr_norm base a
+  | _ => rfl
+
+theorem raw_norm (t : Token) : (normToken t).raw = t.raw := by cases t <;> rfl
+
+theorem isText_norm (t : Token) : tokIsText (normToken t) = tokIsText t := by cases t <;> rfl
+
+def setSeen (c : Ctl) (n : Nat) : Ctl := { c with tokensSeen := n }
+
+theorem lexE_cases {c c' : Ctl} (h : LexE c c') : c.failAt = 0 ∧ c' = setSeen c c'.tokensSeen := by
+  obtain ⟨h0, h1⟩ := h
+  refine ⟨h0, ?_⟩
+  obtain ⟨a1, a2, a3, a4, a5, a6, a7, a8⟩ := c
+  obtain ⟨b1, b2, b3, b4, b5, b6, b7, b8⟩ := c'
+  simp only [eraseSeen, Ctl.mk.injEq] at h1
+  obtain ⟨e1, e2, e3, e4, e5, e6, e7, _⟩ := h1
+  subst e1 e2 e3 e4 e5 e6 e7
+  rfl
+
+theorem lexE_setSeen {c : Ctl} (h : c.failAt = 0) (m : Nat) : LexE c (setSeen c m) := ⟨h, rfl⟩
+
+theorem lexE_setSeen2 {c : Ctl} (h : c.failAt = 0) (m m' : Nat) : LexE (setSeen c m) (setSeen c m') := ⟨h, rfl⟩
+
+theorem token_failAt (c : Ctl) (t : Token) : (Lane.Lex.ctl.token c t).1.failAt = c.failAt := by
+  simp only [Lane.Lex.ctl]
+  split
+  · rfl
+  · split
+    · split <;> rfl
+    · rfl
+
+theorem lex_token_nontext (c : Ctl) (t : Token) (h : tokIsText t = false) :
+    Lane.Lex.ctl.token c t =
+      if ({ c with tokensSeen := c.tokensSeen + 1 } : Ctl).failAt != 0 &&
+          ({ c with tokensSeen := c.tokensSeen + 1 } : Ctl).tokensSeen == ({ c with tokensSeen := c.tokensSeen + 1 } : Ctl).failAt
+      then ({ c with tokensSeen := c.tokensSeen + 1 }, { chunks := [], err := some .handler })
+      else ({ c with tokensSeen := c.tokensSeen + 1, log := tokenStr t :: c.log }, { chunks := [t.raw] }) := by
+  cases t <;> first | rfl | cases h
+
+/-- with failure injection off, a token is handled independently of the call count -/
+theorem lex_token_seen (c : Ctl) (h : c.failAt = 0) (t : Token) (m : Nat) :
+    Lane.Lex.ctl.token (setSeen c m) t = (setSeen (Lane.Lex.ctl.token c t).1 (m + 1), (Lane.Lex.ctl.token c t).2) := by
+  have e1 : (c.failAt != 0) = false := by rw [h]; rfl
+  cases t with
+  | text b tt l s =>
+    simp only [Lane.Lex.ctl, setSeen, e1, Bool.false_and, Bool.false_eq_true, if_false]
+    cases l <;> rfl
+  | startTag n as ns sc raw src base =>
+    simp only [Lane.Lex.ctl, setSeen, e1, Bool.false_and, Bool.false_eq_true, if_false]
+  | endTag n raw src =>
+    simp only [Lane.Lex.ctl, setSeen, e1, Bool.false_and, Bool.false_eq_true, if_false]
+  | comment x raw src =>
+    simp only [Lane.Lex.ctl, setSeen, e1, Bool.false_and, Bool.false_eq_true, if_false]
+  | doctype n p s fq raw src =>
+    simp only [Lane.Lex.ctl, setSeen, e1, Bool.false_and, Bool.false_eq_true, if_false]
+
+/-- **The logging observer of lane `lex` is in the class** (on the states whose failure injection is off:
+`failAt = 0`; with `failAt = n > 0` the controller fails at its `n`-th `handle_token` call, and the number of
+calls depends on how the text was fragmented — by design). -/
+theorem lexCtl_textBlind : TextBlind Lane.Lex.ctl LexE where
+  dom := fun g g' h => by
+    obtain ⟨h0, h1⟩ := lexE_cases h
+    refine ⟨⟨h0, rfl⟩, ?_, rfl⟩
+    rw [h1]; exact h0
+  dom_tok := fun g t h => ⟨by rw [← token_failAt g t]; exact h.1, rfl⟩
+  trans := fun g1 g2 g3 h1 h2 => ⟨h1.1, h1.2.trans h2.2⟩
+  token_norm := fun g t t' h => by
+    have h1 : tokenStr t = tokenStr t' := by rw [← tokenStr_norm t, ← tokenStr_norm t', h]
+    have h2 : t.raw = t'.raw := by rw [← raw_norm t, ← raw_norm t', h]
+    have h3 : tokIsText t = tokIsText t' := by rw [← isText_norm t, ← isText_norm t', h]
+    cases ht : tokIsText t with
+    | true =>
+      have ht' : tokIsText t' = true := by rw [← h3]; exact ht
+      cases t <;> first | cases ht | skip
+      cases t' <;> first | cases ht' | skip
+      simp only [normToken] at h
+      rw [h]
+    | false =>
+      rw [lex_token_nontext g t ht, lex_token_nontext g t' (by rw [← h3]; exact ht), h1, h2]
+  aux_norm := fun g i i' h => by
+    right
+    simp only [Lane.Lex.ctl, h.sc, h.len]
+  start := fun g g' n ns h => by
+    obtain ⟨h0, h1⟩ := lexE_cases h
+    rw [h1]
+    have e : Lane.Lex.ctl.startTag (setSeen g g'.tokensSeen) n ns =
+        (setSeen (Lane.Lex.ctl.startTag g n ns).1 g'.tokensSeen, (Lane.Lex.ctl.startTag g n ns).2) := by
+      have hi : (setSeen g g'.tokensSeen).item = g.item := rfl
+      simp only [Lane.Lex.ctl, hi]
+      by_cases hb : g.item.2 = true
+      · simp only [hb, if_true]; rfl
+      · simp only [hb]; rfl
+    rw [e]
+    refine ⟨rfl, lexE_setSeen ?_ _⟩
+    simp only [Lane.Lex.ctl]
+    by_cases hb : g.item.2 = true
+    · simp only [hb, if_true]; exact h0
+    · simp only [hb]; exact h0
+  endT := fun g g' n h => by
+    obtain ⟨h0, h1⟩ := lexE_cases h
+    rw [h1]
+    exact ⟨rfl, lexE_setSeen (c := (Lane.Lex.ctl.endTag g n).1) h0 g'.tokensSeen⟩
+  aux := fun g g' i h => by
+    obtain ⟨h0, h1⟩ := lexE_cases h
+    rw [h1]
+    exact ⟨rfl, lexE_setSeen (c := (Lane.Lex.ctl.auxInfo g i).1) h0 g'.tokensSeen⟩
+  emit := fun _ => rfl
+  flags := fun g g' h => by
+    obtain ⟨h0, h1⟩ := lexE_cases h
+    rw [h1]; rfl
+  tok := fun g g' t h ht => by
+    obtain ⟨h0, h1⟩ := lexE_cases h
+    rw [h1, lex_token_seen g h0]
+    exact ⟨rfl, rfl, rfl, lexE_setSeen (by rw [token_failAt]; exact h0) _⟩
+  text_ok := fun g b tt l s h => by
+    have e1 : (g.failAt != 0) = false := by rw [h.1]; rfl
+    simp only [Lane.Lex.ctl, e1, Bool.false_and, Bool.false_eq_true, if_false]
+    refine ⟨trivial, trivial, ?_⟩
+    cases b <;> simp
+  text_cong := fun g g' b tt l s h => by
+    obtain ⟨h0, h1⟩ := lexE_cases h
+    rw [h1, lex_token_seen g h0]
+    exact lexE_setSeen (by rw [token_failAt]; exact h0) _
+  text_split := fun g b1 b2 tt l s h => by
+    have e1 : (g.failAt != 0) = false := by rw [h.1]; rfl
+    have h0 := h.1
+    obtain ⟨a1, a2, a3, a4, a5, a6, a7, a8⟩ := g
+    simp only at e1 h0
+    subst h0
+    cases a6 with
+    | none =>
+      cases l <;> exact ⟨rfl, by simp [Lane.Lex.ctl, eraseSeen]⟩
+    | some acc =>
+      obtain ⟨s0, e0, tt0, bs⟩ := acc
+      cases l <;> exact ⟨rfl, by simp [Lane.Lex.ctl, eraseSeen, List.append_assoc]⟩
+  handleEnd := fun g g' h => ⟨rfl, h⟩
+
+
+/-- **C02 for the lane `lex` world** (generated tables, scripted capture flags, logging observer): two chunkings
+of the same document give the same outcome, the same sink bytes and the same event log. -/
+theorem C02_chunk_invariance_lex (c0 : Ctl) (h0 : c0.failAt = 0) (cfg : Settings) (cs₁ cs₂ : List Bytes)
+    (h1 : cs₁ ≠ []) (h2 : cs₂ ≠ []) (hflat : cs₁.flatten = cs₂.flatten)
+    (hc1 : Clean (C01.run Lane.Lex.world (C01.Rewriter.new Lane.Lex.world c0 cfg) cs₁).2)
+    (hc2 : Clean (C01.run Lane.Lex.world (C01.Rewriter.new Lane.Lex.world c0 cfg) cs₂).2)
+    (hcW : Clean (C01.run Lane.Lex.world (C01.Rewriter.new Lane.Lex.world c0 cfg) [cs₁.flatten]).2) :
+    outcome (C01.run Lane.Lex.world (C01.Rewriter.new Lane.Lex.world c0 cfg) cs₁).2 =
+      outcome (C01.run Lane.Lex.world (C01.Rewriter.new Lane.Lex.world c0 cfg) cs₂).2 ∧
+    (outcome (C01.run Lane.Lex.world (C01.Rewriter.new Lane.Lex.world c0 cfg) cs₁).2 = .ok →
+      sinkBytes (C01.run Lane.Lex.world (C01.Rewriter.new Lane.Lex.world c0 cfg) cs₁).1.sink =
+        sinkBytes (C01.run Lane.Lex.world (C01.Rewriter.new Lane.Lex.world c0 cfg) cs₂).1.sink ∧
+      (C01.run Lane.Lex.world (C01.Rewriter.new Lane.Lex.world c0 cfg) cs₁).1.stream.disp.ctl.log =
+        (C01.run Lane.Lex.world (C01.Rewriter.new Lane.Lex.world c0 cfg) cs₂).1.stream.disp.ctl.log) := by
+  obtain ⟨a, b⟩ := C02_chunk_invariance Lane.Lex.world LexE c0 cfg cs₁ cs₂ C02_wf_gen lexCtl_textBlind ⟨h0, rfl⟩ h1 h2 hflat
+    hc1 hc2 hcW
+  refine ⟨a, fun hok => ?_⟩
+  obtain ⟨b1, gW, b2, b3⟩ := b hok
+  refine ⟨b1, ?_⟩
+  have e1 := congrArg Ctl.log b2.2
+  have e2 := congrArg Ctl.log b3.2
+  simp only [eraseSeen] at e1 e2
+  rw [e1, e2]
+
+end lex
 
 end LolHtml.Thm.C02
